@@ -357,7 +357,7 @@ def sync_mechanism(run, tier):
     orphans) against the Level-1 statements on every edge, and exports shortest-path behaviours; the harness replays
     them on every class and compares, after every step, results, resource, in-memory images and identities."""
     quick = tier == "quick"
-    base = {"Objs": '{"o1", "o2"}', "MaxId": "2", "MaxSteps": "4" if quick else "5", "SampleK": "100" if quick else "1500",
+    base = {"Objs": '{"o1", "o2"}', "MaxId": "2", "MaxSteps": "4" if quick else "5", "SampleK": "100" if quick else "1500", "Wide": "FALSE",
             "Dev_NestedNoLoad": "FALSE", "Dev_NoneIsNoop": "FALSE", "Dev_PyEqKeepsOld": "FALSE"}
     for kind in ("d", "l"):
         consts = dict(base, Kind=f'"{kind}"')
